@@ -186,6 +186,29 @@ CLAIMED.update({
         "design": "DESIGN.md section 3 C07",
     },
 })
+CLAIMED.update({
+    "C01": {
+        "text": "Engine-F clauses on the in-language nondeterminism sources: (1) every value derived from time.perf_counter()/time.time() in "
+                "run_turn flows only into other timing locals or into record fields with masked timing keys (taint analysis over the AST); "
+                "(2) no hash-order dependent iteration over a set in the listed stage functions (every set is iterated through sorted()); "
+                "(3) no RNG / id() / hash() / datetime.now in the listed functions. The (-score, id) tie-breaks are postconditions of the "
+                "C03/C11/C18 contracts. The dependence of scheduler yields on wall-clock time is a known finding.",
+        "note": "This decides only 'no listed nondeterminism source reaches an observable sink'; bit-reproducibility of numpy/BLAS across "
+                "processes, mtime-ordered snapshot discovery, real thread timing and the PYTHONHASHSEED claim beyond set iteration are not "
+                "decided. The function list is declared in contracts/f_determinism.py; a new function outside it is not covered.",
+        "design": "DESIGN.md section 3 C01",
+    },
+    "C14": {
+        "text": "The per-function parts contracts can reach: _suggest_key is total for every JSON/YAML key type (str/int/float/bool/None; "
+                "Engine V, with _lev's precondition 'both arguments are strings' as a call-site obligation), the unknown-key loops use keys "
+                "only opaquely, the normaliser raises only ConfigError (every raise statement), and all API variants run the normaliser on "
+                "their own argument and map ConfigError to the same message list.",
+        "note": "Totality over arbitrary leaf values through the 1300-line normaliser, purity (no mutation of the input), the CLI exit code and "
+                "'every accepted config is runnable' are NOT decided by this check; _lev is an assumed contract (string iteration is outside "
+                "the engine's subset).",
+        "design": "DESIGN.md section 3 C14",
+    },
+})
 PENDING_REASON = "check not built yet (construction in progress, see DESIGN.md section 3)"
 NA = {}
 
